@@ -11,7 +11,7 @@ exec(open(sys.argv[1]).read(), ns)
 timeout = int(sys.argv[2]) if len(sys.argv) > 2 else 300
 jobs = int(sys.argv[3]) if len(sys.argv) > 3 else 8
 run = Run("TRY", "quick", 0); run.snapshot()
-ov = Overlay(run, "cells"); ov.preamble(ns.get("FILE", cells.EVAL), cells.PREAMBLE if ns.get("FILE", cells.EVAL) == cells.EVAL else ns.get("PREAMBLE", ""))
+ov = Overlay(run, "cells"); ov.preamble(ns.get("FILE", cells.EVAL), ns["PREAMBLE"] if "PREAMBLE" in ns else cells.PREAMBLE)
 hs = []
 for t in ns["H"]:
     name, body, unwind = t[0], t[1], t[2]
